@@ -26,7 +26,7 @@ fn lit(ch: &mut Chooser, lits: &[&str]) -> Expr {
 }
 
 /// every binary tree with `n` leaves (all Catalan shapes x operators x literals)
-fn tree(ch: &mut Chooser, n: usize, lits: &[&str]) -> Expr {
+pub fn tree(ch: &mut Chooser, n: usize, lits: &[&str]) -> Expr {
     if n == 1 {
         return lit(ch, lits);
     }
